@@ -140,6 +140,20 @@ def judge_split(A, u, s, v, q, q0, q1, tol, rec, prefix=''):
     return nd
 
 
+
+def _charge_forms(q0, q1, seed):
+    """The same charge vectors in another integer dtype if every value fits: uint8 / uint16 for non-negative charges, int16 otherwise."""
+    k = seed % 4
+    allq = np.concatenate([q0, q1])
+    if k == 1 and allq.min() >= 0 and allq.max() < 120:
+        return q0.astype(np.uint8), q1.astype(np.uint8)
+    if k == 2 and allq.min() >= 0 and allq.max() < 30000:
+        return q0.astype(np.uint16), q1.astype(np.uint16)
+    if k == 3 and np.abs(allq).max() < 16000:
+        return q0.astype(np.int16), q1.astype(np.int16)
+    return q0, q1
+
+
 def check_svd(case, rec):
     q0 = np.array(case['q0'], dtype=int)
     q1 = np.array(case['q1'], dtype=int)
@@ -162,7 +176,11 @@ def check_svd(case, rec):
         A = A * (2.0 ** asc); designed = np.asarray(designed) * (2.0 ** asc)
         rec.label('input_scaled_2^%d' % asc)
     A0 = A.copy(); q0c = q0.copy(); q1c = q1.copy()
-    u, s, v, q = ptn.split_matrix_svd(A, q0, q1, tol)
+    # charges also as unsigned / narrow integer arrays when their values allow it (occupation numbers are naturally unsigned)
+    qa, qb = _charge_forms(q0, q1, case['seed'])
+    if qa.dtype != q0.dtype:
+        rec.label('charge_dtype_' + str(qa.dtype))
+    u, s, v, q = ptn.split_matrix_svd(A, qa, qb, tol)
     # judged after the library has been used again: results must not live in storage that later calls reuse
     ptn.split_matrix_svd(A[::-1, ::-1].copy(), q0[::-1].copy(), q1[::-1].copy(), 0.0)
     ptn.split_matrix_svd(block_matrix(np.array([0, 1]), np.array([1, 0, 1]), 7, 'real'), np.array([0, 1]), np.array([1, 0, 1]), 0.0)
